@@ -33,7 +33,8 @@ CONSTANT Menus   \* set of menus; a menu is a record of sets, one per field, and
   \* addrs     subset of BOOLEAN: (host use) the address has a port, so net.SplitHostPort succeeds
   \* plists    set of principal lists (sequences of strings);  reqs: set of requested principals
   \* afters, befores   subsets of 0..6 (symbolic time order above)
-  \* crits     set of sets of critical option names ("sa" = source-address);  supps: set of sets (SupportedCriticalOptions)
+  \* crits     set of sets of critical option names ("sa" = source-address; several options per certificate, mixing
+  \*           supported and unsupported ones: the check is per option);  supps: set of sets (SupportedCriticalOptions)
   \* revs      subset of {"nil", "no", "yes"}: IsRevoked unset / returns false / returns true
   \* sigs      subset of {"valid", "otherdata", "otherkey", "badformat", "flip"}
   \* encs      set of <<encoding class, bytes the CA signed>> pairs, see EncClasses
